@@ -54,6 +54,11 @@ func genTree(t *rapid.T, depth int, label string) *h.Ex {
 	case kind == 8:
 		return &h.Ex{Op: rapid.SampledFrom([]string{"LN", "LOG2", "LOG10"}).Draw(t, label+".m"), Args: []*h.Ex{genTree(t, depth-1, label+".arg")}}
 	case kind == 9:
+		if rapid.IntRange(0, 2).Draw(t, label+".opt") == 0 {
+			// another percentile read from an existing percentile's histogram
+			in := &h.Ex{Op: "PCT", F: rapid.SampledFrom(h.ValNames).Draw(t, label+".of"), Pct: 50, Lo: 0, Hi: float64(rapid.SampledFrom([]int{10, 100}).Draw(t, label+".ohi")), Prec: rapid.SampledFrom([]int{0, 1, 2}).Draw(t, label+".oprec")}
+			return &h.Ex{Op: "PCTOPT", Pct: float64(rapid.SampledFrom([]int{5, 50, 95}).Draw(t, label+".opct")), Args: []*h.Ex{in}}
+		}
 		return &h.Ex{Op: "PCT", F: rapid.SampledFrom(h.ValNames).Draw(t, label+".f"), Pct: float64(rapid.SampledFrom([]int{1, 50, 90, 99}).Draw(t, label+".pct")), Lo: 0, Hi: float64(rapid.SampledFrom([]int{10, 100}).Draw(t, label+".hi")), Prec: rapid.IntRange(0, 1).Draw(t, label+".prec")}
 	case kind == 10:
 		return &h.Ex{Op: "SHIFT", Off: -int64(rapid.IntRange(1, 3).Draw(t, label+".off")) * 1e9, Args: []*h.Ex{genTree(t, depth-1, label+".sh")}}
